@@ -1,8 +1,11 @@
 /-
   C01 — line-based retrace returns exactly the call stack recorded in the mapping, for both the
-  in-memory mapper (PG/Props/C01m.lean, all record lists) and the cache reader (through C02).
+  in-memory mapper (PG/Props/C01m.lean, all record lists) and the cache reader (through C02),
+  and — at the level of mapping *bytes* — independently of line-ending style and of
+  unparseable lines.
 -/
-import PG.Props.C02
+import PG.Props.C02b
+import PG.Props.C05
 namespace PG
 
 /-- The cache reader, on the cache written from the records and parsed back, returns for every
@@ -12,5 +15,87 @@ theorem C01_cache (recs : List Record) (hr : ReprR recs) (hs : (Tables.build rec
     (c : Cache) (hc : Cache.parse (Cache.write recs) = .ok c) (q : Frame) (hq : q.params = none) :
     c.remapFrame q = SpecR.framesByLine recs q := by
   rw [C02_frame_line recs hr hs true c hc q hq, C01_mapper recs true q hq]
+
+theorem okRecs_cons_ok (r : Record) (xs : List Item) : okRecs (Item.ok r :: xs) = r :: okRecs xs := by
+  simp [okRecs, List.filterMap_cons, Item.ok?]
+
+theorem okRecs_cons_err (l : Bytes) (xs : List Item) : okRecs (Item.err l :: xs) = okRecs xs := by
+  simp [okRecs, List.filterMap_cons, Item.ok?]
+
+theorem normItems_cons_ok (r : Record) (xs : List Item) :
+    normItems (Item.ok r :: xs) = Item.ok r :: normItems xs := by
+  simp [normItems, List.filterMap_cons]
+
+theorem normItems_cons_err (l : Bytes) (xs : List Item) :
+    normItems (Item.err l :: xs) =
+      if (stripNl l).isEmpty then normItems xs else Item.err (stripNl l) :: normItems xs := by
+  cases hs : stripNl l with
+  | nil => simp [normItems, List.filterMap_cons, hs]
+  | cons x xs' => simp [normItems, List.filterMap_cons, hs]
+
+theorem okRecs_normItems (l : List Item) : okRecs (normItems l) = okRecs l := by
+  induction l with
+  | nil => rfl
+  | cons it rest ih =>
+    cases it with
+    | ok r => rw [normItems_cons_ok, okRecs_cons_ok, okRecs_cons_ok, ih]
+    | err l =>
+      rw [normItems_cons_err, okRecs_cons_err]
+      split
+      · exact ih
+      · rw [okRecs_cons_err, ih]
+
+theorem okRecs_append (x y : List Item) : okRecs (x ++ y) = okRecs x ++ okRecs y := by
+  simp [okRecs]
+
+/-- the ok-records of a file resynchronise at every line break -/
+theorem okRecs_resync (a b : Bytes) (nl : UInt8) (hnl : isNewline nl = true) :
+    okRecs (records (a ++ nl :: b)) = okRecs (records a) ++ okRecs (records b) := by
+  have h := congrArg okRecs (C06_resync a b nl hnl)
+  rw [okRecs_normItems, okRecs_append, okRecs_normItems, okRecs_normItems] at h
+  exact h
+
+/-- blank or unparseable lines do not matter: a line (or block of lines) that yields no record
+    can be inserted between any two lines without changing the record stream -/
+theorem okRecs_noise (a noise b : Bytes) (nl₁ nl₂ : UInt8) (h₁ : isNewline nl₁ = true)
+    (h₂ : isNewline nl₂ = true) (hn : okRecs (records noise) = []) :
+    okRecs (records (a ++ nl₁ :: (noise ++ nl₂ :: b))) = okRecs (records (a ++ nl₁ :: b)) := by
+  rw [okRecs_resync a _ nl₁ h₁, okRecs_resync noise b nl₂ h₂, hn, okRecs_resync a b nl₁ h₁]
+  simp
+
+/-- For a mapping *file* printed from the grammar (well-formed lines, each followed by any
+    non-empty mix of CR / LF), the mapper built from the bytes answers every line-based frame
+    query with exactly what the retrace rule says about the printed lines — in particular the
+    answer does not depend on the terminators chosen. -/
+theorem C01_file (ls : List (Line × Bytes)) (pm : Bool) (q : Frame) (hq : q.params = none)
+    (h : ∀ p ∈ ls, p.1.WF ∧ p.2 ≠ [] ∧ ∀ b ∈ p.2, isNewline b = true) :
+    (Mapper.ofBytes ((ls.map (fun p => p.1.print ++ p.2)).flatten) pm).remapFrame q =
+      SpecR.framesByLine (ls.map (fun p => p.1.toRecord)) q := by
+  unfold Mapper.ofBytes
+  rw [C05_file ls h]
+  have : okRecs (ls.map (fun p => Item.ok p.1.toRecord)) = ls.map (fun p => p.1.toRecord) := by
+    induction ls with
+    | nil => rfl
+    | cons x xs ih =>
+      simp only [List.map_cons, okRecs, List.filterMap_cons, Item.ok?]
+      have := ih (fun p hp => h p (List.mem_cons_of_mem _ hp))
+      simp only [okRecs] at this
+      rw [this]
+  rw [this]
+  exact C01_mapper _ pm q hq
+
+/-- line-ending independence, stated directly -/
+theorem C01_terminator_indep (ls₁ ls₂ : List (Line × Bytes)) (pm : Bool) (q : Frame) (hq : q.params = none)
+    (h₁ : ∀ p ∈ ls₁, p.1.WF ∧ p.2 ≠ [] ∧ ∀ b ∈ p.2, isNewline b = true)
+    (h₂ : ∀ p ∈ ls₂, p.1.WF ∧ p.2 ≠ [] ∧ ∀ b ∈ p.2, isNewline b = true)
+    (hsame : ls₁.map (·.1) = ls₂.map (·.1)) :
+    (Mapper.ofBytes ((ls₁.map (fun p => p.1.print ++ p.2)).flatten) pm).remapFrame q =
+      (Mapper.ofBytes ((ls₂.map (fun p => p.1.print ++ p.2)).flatten) pm).remapFrame q := by
+  rw [C01_file ls₁ pm q hq h₁, C01_file ls₂ pm q hq h₂]
+  have e : ls₁.map (fun p => p.1.toRecord) = ls₂.map (fun p => p.1.toRecord) := by
+    have := congrArg (List.map Line.toRecord) hsame
+    rw [List.map_map, List.map_map] at this
+    exact this
+  rw [e]
 
 end PG
